@@ -6,6 +6,15 @@
 
 package funnel
 
+import (
+	"context"
+	"fmt"
+	"strconv"
+
+	"github.com/conduitio/conduit-commons/opencdc"
+	"github.com/conduitio/conduit/pkg/foundation/cerrors"
+)
+
 // VerifDLQWindow exposes dlqWindow to the verification harness.
 type VerifDLQWindow struct{ w *dlqWindow }
 
@@ -19,3 +28,132 @@ func (v *VerifDLQWindow) Ack(count int) { v.w.Ack(count) }
 
 // Nack wraps dlqWindow.Nack.
 func (v *VerifDLQWindow) Nack(count int) int { return v.w.Nack(count) }
+
+// ---- arbiters (multiAckNacker, runAckNacker) driven in isolation ----
+
+type verifRecParent struct{ events []string }
+
+func (p *verifRecParent) Ack(_ context.Context, b *Batch) error {
+	if len(b.positions) == 0 {
+		p.events = append(p.events, "A-empty")
+		return nil
+	}
+	p.events = append(p.events, fmt.Sprintf("A%s-%s", string(b.positions[0]), string(b.positions[len(b.positions)-1])))
+	return nil
+}
+
+func (p *verifRecParent) Nack(_ context.Context, b *Batch, _ string) error {
+	for _, pos := range b.positions {
+		p.events = append(p.events, "N"+string(pos))
+	}
+	return nil
+}
+
+// VerifMultiAck is a real multiAckNacker over positions "0".."n-1" with a recording parent.
+type VerifMultiAck struct {
+	m      *multiAckNacker
+	parent *verifRecParent
+	n      int
+}
+
+// VerifNewMultiAck wraps newMultiAckNacker.
+func VerifNewMultiAck(branches, n int) (*VerifMultiAck, error) {
+	positions := make([]opencdc.Position, n)
+	for i := range positions {
+		positions[i] = opencdc.Position(strconv.Itoa(i))
+	}
+	p := &verifRecParent{}
+	m, err := newMultiAckNacker(p, branches, positions)
+	if err != nil {
+		return nil, err
+	}
+	return &VerifMultiAck{m: m, parent: p, n: n}, nil
+}
+
+// Vote lets one branch ack or nack the records at idxs (one Ack/Nack call).
+func (v *VerifMultiAck) Vote(isAck bool, idxs []int) error {
+	recs := make([]opencdc.Record, len(idxs))
+	for i, ix := range idxs {
+		recs[i] = opencdc.Record{Position: opencdc.Position(strconv.Itoa(ix))}
+	}
+	b := NewBatch(recs)
+	if isAck {
+		return v.m.Ack(context.Background(), b)
+	}
+	for i := range recs {
+		b.Nack(i, cerrors.New("verif nack"))
+	}
+	return v.m.Nack(context.Background(), b, "verif")
+}
+
+// Events returns the parent calls so far ("A<from>-<last>", "N<idx>") and the released cursor.
+func (v *VerifMultiAck) Events() ([]string, int) { return v.parent.events, v.m.released }
+
+// VerifRun is a real split run (one record split into `total` pieces) voted on through a real
+// runAckNacker with a recording parent.
+type VerifRun struct {
+	b      *Batch
+	r      *runAckNacker
+	parent *verifRecParent
+	cur    int
+}
+
+// VerifNewRun builds a batch with one record split into total (>= 2) pieces.
+func VerifNewRun(total int) *VerifRun {
+	b := NewBatch([]opencdc.Record{{Position: opencdc.Position("7")}})
+	pieces := make([]opencdc.Record, total)
+	for i := range pieces {
+		pieces[i] = opencdc.Record{Position: opencdc.Position("7")}
+	}
+	b.SplitRecord(0, pieces)
+	p := &verifRecParent{}
+	return &VerifRun{b: b, r: newRunAckNacker(p), parent: p}
+}
+
+// Vote votes on the next k live pieces (re-voting earlier ones when fewer than k are left).
+// It returns "-", "ACK", "NACK" or "ERR".
+func (v *VerifRun) Vote(isAck bool, k int) string {
+	from := v.cur
+	if from+k > len(v.b.records) {
+		from = len(v.b.records) - k
+	}
+	if from < 0 {
+		return "ERR"
+	}
+	sb := v.b.sub(from, from+k)
+	before := len(v.parent.events)
+	var err error
+	if isAck {
+		err = v.r.Ack(context.Background(), sb)
+	} else {
+		for i := 0; i < k; i++ {
+			sb.recordStatuses[i] = RecordStatus{Flag: RecordFlagNack, Error: cerrors.New("verif nack")}
+		}
+		err = v.r.Nack(context.Background(), sb, "verif")
+	}
+	v.cur = from + k
+	if err != nil {
+		return "ERR"
+	}
+	if len(v.parent.events) > before {
+		if v.parent.events[before][0] == 'A' {
+			return "ACK"
+		}
+		return "NACK"
+	}
+	return "-"
+}
+
+// Grow splits the next unvoted piece into d+1 pieces (run.total += d). It reports false when no
+// unvoted piece is left.
+func (v *VerifRun) Grow(d int) bool {
+	if v.cur >= len(v.b.records) {
+		return false
+	}
+	pieces := make([]opencdc.Record, d+1)
+	for i := range pieces {
+		pieces[i] = opencdc.Record{Position: opencdc.Position("7")}
+	}
+	v.b.SplitRecord(v.cur, pieces)
+	return true
+}
